@@ -452,15 +452,7 @@ func (b *vfBench) reset(t testing.TB) {
 	vfSetHook(vfBenchHook)
 }
 
-func vfFreeTCPPort(t testing.TB, ip string) int {
-	l, err := net.Listen("tcp", ip+":0")
-	if err != nil {
-		t.Fatalf("VF-INFRA no free tcp port: %v", err)
-	}
-	p := l.Addr().(*net.TCPAddr).Port
-	l.Close()
-	return p
-}
+func vfFreeTCPPort(t testing.TB, ip string) int { return vfFreePort(t, ip) }
 
 // vfClient is a TCP client connection handled at system-call level (blocking connect, non-blocking reads)
 type vfClient struct {
